@@ -1,7 +1,6 @@
 package lib
 
 import (
-	"bytes"
 	"fmt"
 	"os"
 	"os/exec"
@@ -38,6 +37,16 @@ func StartCLI(bin string, args, env []string, outPath string, logFile string) (*
 	if err != nil {
 		return nil, err
 	}
+	wantAPI := false
+	for _, a := range args {
+		if a == "--api-address" {
+			wantAPI = true
+		}
+	}
+	if !wantAPI {
+		// the API server defaults to localhost:10000: two children (or two checks) would collide
+		args = append(append([]string(nil), args...), "--api-address", "")
+	}
 	cmd := exec.Command(bin, append([]string{"run"}, args...)...)
 	cmd.Env = append([]string{"PATH=/usr/bin:/bin", "HOME=/tmp"}, env...)
 	cmd.Stdout, cmd.Stderr = f, f
@@ -61,7 +70,7 @@ func StartCLI(bin string, args, env []string, outPath string, logFile string) (*
 			if m2 := reAPIListen.FindSubmatch(b); m2 != nil {
 				c.APIAddr = string(m2[1])
 			}
-			if c.APIAddr != "" || !bytes.Contains([]byte(fmt.Sprint(args)), []byte("--api-address")) {
+			if c.APIAddr != "" || !wantAPI {
 				return c, nil
 			}
 		}
